@@ -89,13 +89,35 @@ theorem simS_step (n : Nat) (hC : SimC n) : SimS (n+1) := by
     have hcases : pureCmd c = true ∨ (K.e = false ∧ supNegSub K c = true) := by
       simp only [supStmt, Bool.or_eq_true, Bool.and_eq_true, Bool.not_eq_eq_eq_not, Bool.not_true] at hsup
       exact hsup
-    have key : ∀ q : Prop, Rel (Post K k sub False q { s with exit := {} })
+    have key : Rel (Post K k sub False False { s with exit := {} })
         (run n (.cmd c) { s with exit := {} })
         (sem n { k with ign := true } (.cmd c) (absEnv s)) ∧
         (∀ fl e1, sem n { k with ign := true } (.cmd c) (absEnv s) = some (fl, e1) → fl = .norm) := by
-      intro q
-      sorry
-    obtain ⟨h0, hnorm⟩ := key False
+      rcases hcases with hp | ⟨he, hsub⟩
+      · constructor
+        · cases n with
+          | zero => simp [run, sem, Rel]
+          | succ m =>
+            rw [sem_pure_ctx { k with ign := true } k c hp]
+            have := sim_pure (n := m) c hp hd0 hnp rfl False (fun h => h)
+            rw [absEnv_exit] at this
+            exact this
+        · intro fl e1 h
+          exact sem_pure_norm hp h
+      · cases c <;> simp [supNegSub] at hsub
+        case subsh p =>
+          have hc' : supCmd K (.subsh p) = true := by
+            simp [supCmd, he, hsub.1, hsub.2]
+          have hst' : Stat K { k with ign := true } sub :=
+            ⟨hst.kt, fun _ => rfl, fun h => by simp [he] at h, hst.kfn, hst.depth, hst.top⟩
+          constructor
+          · have := hC K { k with ign := true } sub (.subsh p) { s with exit := {} } hst' hc'
+              (hd0.ctx_of_not_e he) hl hnp rfl
+            rw [absEnv_exit] at this
+            exact Rel_mono (fun _ _ _ h => (h.ctx_of_not_e he).mono_q (fun h => h.elim)) this
+          · intro fl e1 h
+            exact sem_subsh_norm h
+    obtain ⟨h0, hnorm⟩ := key
     cases hr : run n (.cmd c) { s with exit := {} } with
     | none =>
       rw [hr] at h0
